@@ -125,11 +125,11 @@ class EPpiston(ExactSolver):
             xmax = max(xvec)
 
         # Initialize the physical variables
-        vel_x = np.empty_like(xvec)
-        p_x = np.empty_like(xvec)
-        e_x = np.empty_like(xvec)
-        rho_x = np.empty_like(xvec)
-        sdev_x = np.empty_like(xvec)
+        vel_x = np.empty_like(xvec, dtype=float)
+        p_x = np.empty_like(xvec, dtype=float)
+        e_x = np.empty_like(xvec, dtype=float)
+        rho_x = np.empty_like(xvec, dtype=float)
+        sdev_x = np.empty_like(xvec, dtype=float)
 
         tmax = xmax/self.wv_el
         wv_el_x = self.wv_el*t
